@@ -461,7 +461,7 @@ package analysis
 // ---------------------------------------------------------------- analyzer.go: the index walk (C11-C16)
 
 // idxMaps: the index maps of an analyzed Spec exist (established by reset)
-//@ fun idxMaps(s *Spec) bool = s.allSchemas != nil && s.allOfs != nil && s.references.schemas != nil && s.references.responses != nil && s.references.parameters != nil && s.references.items != nil && s.references.headerItems != nil && s.references.parameterItems != nil && s.references.allRefs != nil && s.references.pathItems != nil && s.patterns.parameters != nil && s.patterns.headers != nil && s.patterns.items != nil && s.patterns.schemas != nil && s.patterns.allPatterns != nil && s.enums.parameters != nil && s.enums.headers != nil && s.enums.items != nil && s.enums.schemas != nil && s.enums.allEnums != nil && s.consumes != nil && s.produces != nil && s.authSchemes != nil && s.operations != nil
+//@ fun idxMaps(s *Spec) bool = s.allSchemas != nil && s.allOfs != nil && s.references.schemas != nil && s.references.responses != nil && s.references.parameters != nil && s.references.items != nil && s.references.headerItems != nil && s.references.parameterItems != nil && s.references.allRefs != nil && s.references.pathItems != nil && s.patterns.parameters != nil && s.patterns.headers != nil && s.patterns.items != nil && s.patterns.schemas != nil && s.patterns.allPatterns != nil && s.enums.parameters != nil && s.enums.headers != nil && s.enums.items != nil && s.enums.schemas != nil && s.enums.allEnums != nil && s.consumes != nil && s.produces != nil && s.authSchemes != nil && s.operations != nil && distinct(s.patterns.parameters, s.patterns.headers, s.patterns.items, s.patterns.schemas, s.patterns.allPatterns) && distinct(s.enums.parameters, s.enums.headers, s.enums.items, s.enums.schemas, s.enums.allEnums) && distinct(s.references.schemas, s.references.responses, s.references.parameters, s.references.items, s.references.headerItems, s.references.parameterItems, s.references.allRefs, s.references.pathItems) && distinct(s.allSchemas, s.allOfs) && distinct(s.consumes, s.produces, s.authSchemes)
 
 //@ func (s *Spec) analyzeSchema(name, schema, prefix)
 //@   requires s != nil && schema != nil && idxMaps(s)
